@@ -391,7 +391,7 @@ func c03Loopback(c *Ctx) {
 				}
 				jb := jobs[i]
 				serial := serialBase + uint32(i) + 1
-				cfg := ClientCfg{Bind: workerIP(c, w) + ":0", Broadcast: bc.Addr, Timeout: T}
+				cfg := ClientCfg{Bind: workerIP(c, w) + ":0", Broadcast: bc.Addr, Timeout: T, Debug: i%5 == 0} // every fifth client dumps its traffic (debug mode): the results are judged all the same
 				switch jb.path {
 				case "udp":
 					cfg.Devices = []DevCfg{{ID: serial, Addr: cu.Addr, Proto: "udp"}}
